@@ -307,6 +307,47 @@ class Executor:
     def st_Pass(self, st, state):
         return [(state, None)]
 
+    def st_While(self, st, state):
+        """`while` loops are outside the subset unless the target supplies a SUMMARY for them (sidecar keyed by the source text of the test): a function that overwrites the
+        state with the loop's total effect.  A summary is an assumption about the loop, not a proof of it -- every use is recorded in self.assumed_summaries and reported."""
+        sm = getattr(self, "while_summaries", {}).get(ast.unparse(st.test))
+        if sm is None:
+            raise Unsupported("while loop (line %d); needs a summary" % st.lineno)
+        if not hasattr(self, "assumed_summaries"):
+            self.assumed_summaries = []
+        self.assumed_summaries.append("while %s (line %d)" % (ast.unparse(st.test), st.lineno))
+        r = sm(self, state)
+        return r if isinstance(r, list) else [(state, None)]
+
+    def st_Delete(self, st, state):
+        out = [(state, None)]
+        for t in st.targets:
+            nxt = []
+            for s, o in out:
+                if o is not None:
+                    nxt.append((s, o))
+                    continue
+                if isinstance(t, ast.Name):
+                    s.env[t.id] = UNBOUND
+                    nxt.append((s, None))
+                elif isinstance(t, ast.Attribute):
+                    for s2, ob in self.eval(t.value, s):
+                        if isinstance(ob, Raised):
+                            nxt.append((s2, ob))
+                        elif isinstance(ob, Obj):
+                            dm = getattr(self, "delattr_models", {}).get((ob.cls, t.attr))
+                            if dm is not None:
+                                dm(self, s2, ob)
+                            else:
+                                s2.attrs(ob).pop(t.attr, None)
+                            nxt.append((s2, None))
+                        else:
+                            raise Unsupported("del of an attribute of %r (line %d)" % (ob, st.lineno))
+                else:
+                    raise Unsupported("del target %s (line %d)" % (type(t).__name__, st.lineno))
+            out = nxt
+        return out
+
     def st_Global(self, st, state):
         state.global_names.update(st.names)
         return [(state, None)]
@@ -728,6 +769,13 @@ class Executor:
             out.append((s, vals if isinstance(vals, Raised) else list(vals)))
         return out
 
+    def ex_Set(self, e, state):
+        # set displays are not interpreted (membership and iteration over them stay outside the subset): the elements are evaluated for their effects
+        out = []
+        for s, vals in self.eval_many(e.elts, state):
+            out.append((s, vals if isinstance(vals, Raised) else Opaque("set")))
+        return out
+
     def ex_Dict(self, e, state):
         # dictionaries are not interpreted: a fresh object (so that identity / "is the returned history the stored one" can be stated), its content stays abstract
         return [(state, Obj("dict"))]
@@ -812,7 +860,10 @@ class Executor:
                 else:
                     r = other is None
             elif isinstance(a, Obj) and isinstance(b, Obj):
-                r = a.oid == b.oid
+                # an object bound by a loop contract may stand for "some element of the sequence", possibly a known object: its contract then carries a symbolic identity table
+                tab = state.attrs(a).get("__is__") or {}
+                tab2 = state.attrs(b).get("__is__") or {}
+                r = tab[b.oid] if b.oid in tab else (tab2[a.oid] if a.oid in tab2 else a.oid == b.oid)
             elif isinstance(a, Opaque) and isinstance(b, Opaque):
                 # two uninterpreted values (e.g. an array returned by a havoc'ed kernel and an operand's array): whether they are the same object is unknown
                 r = True if a is b else z3.Bool("same_object(%s,%s)" % tuple(sorted((a.label, b.label))))
@@ -893,6 +944,13 @@ class Executor:
         return out
 
     def binop(self, op, a, b, s, node=None):
+        if isinstance(a, Obj) or isinstance(b, Obj):
+            nm = {ast.Add: "add", ast.Sub: "sub", ast.Mult: "mul", ast.Div: "truediv", ast.MatMult: "matmul", ast.Pow: "pow"}.get(type(op))
+            for x, y, meth in ((a, b, "__%s__" % nm), (b, a, "__r%s__" % nm)):
+                if nm and isinstance(x, Obj) and ("%s.%s" % (x.cls, meth)) in self.models:
+                    r = self.models["%s.%s" % (x.cls, meth)](self, s, [x, y], {})
+                    return r if isinstance(r, list) else [(s, r)]
+            raise Unsupported("operator %s on %r, %r" % (type(op).__name__, a, b))
         if isinstance(a, Opaque) or isinstance(b, Opaque):
             return [(s, Opaque("binop"))]
         if isinstance(op, ast.Add) and isinstance(a, (tuple, list)) and isinstance(b, (tuple, list)):
@@ -1167,8 +1225,7 @@ class Executor:
                 return r if isinstance(r, list) else [(s, r)]
             b = getattr(self, "bi_" + name.replace(".", "_"), None)
             if b is not None:
-                r = b(s, args, kw)
-                return r if isinstance(r, list) else [(s, r)]
+                return [(s, b(s, args, kw))]      # the built-in models never fork: a list they return is a Python list VALUE (zip, enumerate, list), not a list of outcomes
             if name in self.havoc or name.split(".")[0] in self.havoc:
                 self.havocs_used.append(name)
                 return [(s, Opaque(name))]
@@ -1353,6 +1410,9 @@ class Executor:
         if isinstance(v, (tuple, list)):
             return [(i, x) for i, x in enumerate(v)]
         raise Unsupported("enumerate")
+
+    def bi_iter(self, s, args, kw):
+        return Opaque("iterator")
 
     def bi_zip(self, s, args, kw):
         if all(isinstance(v, (tuple, list)) for v in args):
